@@ -60,6 +60,7 @@ CHUNK = 10
 EVERY3D = {'quick': 10, 'thorough': 5}
 KNOWN = 'C10-refined-trimmed-simplex-boundary'
 KNOWN2 = 'C10-retrimmed-3d-mosaic-inconsistent'
+KNOWN3 = 'C10-degenerate-mosaic-child-not-closed'
 
 # AttributeErrors that are nutils' way of saying "not supported" on the pinned tree
 UNSUPPORTED = ("'MosaicReference' object has no attribute", "'OwnChildReference' object has no attribute", "'WithChildrenReference' object has no attribute",
@@ -491,7 +492,13 @@ class Monitors:
         n, vals, g, funcs = c
         if not n:
             return vals, 0
-        both = set(int(i) for i in parents(base, other, exact=True)[0]) if len(other) else set()
+        both = set()
+        if len(other):
+            opar = parents(base, other, exact=True)[0]
+            ppar = parents(base, part, exact=True)[0]
+            clean_other = {int(b) for b, r in zip(opar, other.references) if not _degenerate(r)}
+            clean_part = {int(b) for b, r in zip(ppar, part.references) if not _degenerate(r)}
+            both = clean_other & clean_part   # base elements present in both parts, without degenerate (sliver) mosaics on either side
         keep = numpy.array([int(base.transforms.index_with_tail(t)[0]) in both for t in g.transforms], dtype=bool)
         self.res.count('integrals')
         ev = g.integrate_elementwise(funcs, degree=self.bench.deg)
@@ -843,6 +850,50 @@ def known_retrim(mon, history, step, monitors):
     return True, f'{ndefect} element(s) cut a second time (3-D mosaic of a mosaic, children of base elements {sorted(culprits)}) are not closed by their own edges; everything else is consistent'
 
 
+def _degenerate(ref):
+    """reference tree contains a mosaic with zero volume or with the full volume of its base (Reference.slice: "the resulting mosaic may
+    have a volume that is equal to zero or self"): a sliver produced by the binning of edge intersections"""
+    from nutils import element
+    if isinstance(ref, element.MosaicReference):
+        v, vb = float(ref.volume), float(ref.baseref.volume)
+        return abs(v) <= 1e-14 or abs(v - vb) <= 1e-14 * max(1., abs(vb)) or _degenerate(ref.baseref)
+    if isinstance(ref, element.WithChildrenReference):
+        return any(_degenerate(c) for c in ref.child_refs)
+    return False
+
+
+def known_sliver(mon, history, step, monitors):
+    """Predicate for the open finding C10-degenerate-mosaic-child-not-closed.  All of:
+    * only boundary closure / element closure fail;
+    * every element that is not closed by its own edges is a WithChildrenReference (trim with maxrefine >= 1) that contains a degenerate
+      mosaic child (zero volume, or the full volume of the child with a sliver of an edge cut off), and there is at least one;
+    * the boundary integrals equal the sums of the per-element edge integrals (boundary and interfaces are assembled consistently), so
+      the whole closure defect sits in those elements.
+    Returns (bool, explanation)."""
+    from nutils import element
+    if not monitors or not all(m in ('boundary closure', 'element closure') for m in monitors):
+        return False, 'other monitors failed'
+    T = step.topo
+    geom, geom0 = mon.mgeom(step), step.geom0
+    if T.ndims != geom.shape[0] or not hasattr(T, 'transforms'):
+        return False, 'not applicable'
+    bad = _element_defects(mon, T, geom, geom0)
+    if not bad:
+        return False, 'no element with an open hull'
+    refs = T.references
+    odd = [i for i in bad if not (isinstance(refs[i], element.WithChildrenReference) and _degenerate(refs[i]))]
+    if odd:
+        return False, f'elements {sorted(odd)[:5]} are not closed by their edges but contain no degenerate mosaic child'
+    b, i, e = mon.bench.bnd(T, geom, geom0), mon.bench.itf(T, geom, geom0), mon.bench.edges(T, geom, geom0)
+    if b is None or i is None or e is None:
+        return False, 'assembly not computable'
+    s = mon.scale(b['area'], i['area'])
+    if not (numpy.abs(e['z_el'].sum(0) - b['z']).max() <= 1e-9 * s and abs(e['f_el'].sum() - (b['flux'] - i['jumpn'])) <= 1e-9 * s
+            and abs(e['total'] - (b['area'] + 2 * i['area'])) <= 1e-9 * s):
+        return False, 'boundary integrals differ from the summed element edge integrals'
+    return True, f'the hull of {len(bad)} trimmed element(s) {sorted(bad)[:6]} with a degenerate (zero- or full-volume) mosaic child is not closed; boundary and interfaces are assembled consistently'
+
+
 # ------------------------------------------------------------------ one history
 
 def evaluate(history, res):
@@ -906,7 +957,7 @@ def evaluate(history, res):
                     return None, [], None
             if mon.problems:
                 mech, why = None, ''
-                for fid, pred in (KNOWN, known_mechanism), (KNOWN2, known_retrim):
+                for fid, pred in (KNOWN, known_mechanism), (KNOWN2, known_retrim), (KNOWN3, known_sliver):
                     try:
                         known, why = pred(mon, history, step, [m for m, _ in mon.problems])
                     except Exception as e:
